@@ -2,7 +2,7 @@
 # usage: seed2eval.sh <id> <demo dest> <pkg> <run>  — duplicate check vs stored seeds, confirm, scratch evaluation
 id=$1
 b=$(grep '^[+-]' /tmp/seed/out/$id/patch.diff | grep -v '^+++\|^---' | sort | md5sum | cut -c1-8)
-for d in seeded/${id} seeded/${id}b seeded/${id}c; do
+for d in seeded/${id} seeded/${id}b seeded/${id}c seeded/${id}d; do
   [ -f $d/patch.diff ] || continue
   a=$(grep '^[+-]' $d/patch.diff | grep -v '^+++\|^---' | sort | md5sum | cut -c1-8)
   if [ "$a" = "$b" ]; then echo "$id DUPLICATE of $d"; exit 0; fi
